@@ -2,17 +2,18 @@ CONSTANTS
   NG = 2
   Sizes = {1, 2}
   ResKinds = {"ok", "exc"}
-  Copies = 2
-  FitsCov = {1, 4}
-  FitsMio = {1, 2, 4}
-  FitsPop = {0, 1, 2, 4}
+  Copies = 1
+  FitsCov = {1, 1000001}
+  FitsMio = {1, 2, 1000001}
+  FitsPop = {0, 1, 2, 1000001}
   MaxLenCov = 2
   MaxLenMio = 1
   Cap0 = 2
-  MaxSteps = 3
+  MaxSteps = 2
   Modes = {"cov", "mio", "pop"}
 SPECIFICATION Spec
 CONSTRAINT Bound
+VIEW StateView
 INVARIANT TypeOK
 INVARIANT PopsSorted
 INVARIANT PopsHMatch
